@@ -6,8 +6,8 @@ from gffutils.feature import feature_from_line
 from gv.model import grammar as G
 
 ID = "C07"
-RULE = ("every line of the grammar: dialect (48) x 0..n attributes each single/2-valued/3-valued/flag x one optional "
-        "escaped reserved character (10 chars x first/middle/last) x 13 column/extra-column variants; all executions are "
+RULE = ("every line of the grammar: dialect (48) x 0..n attributes each single/2-valued/3-valued/flag x one optional (quick: for n <= 2) "
+        "escaped reserved character (10 chars x first/middle/last) x 14 column/extra-column variants; all executions are "
         "distinct choice sequences; non-trivial = the line has >= 2 attribute parts, or an escape, or extra columns, or '.' coordinates")
 ASSUMPTIONS = [
     "keys are \\w+ (GFF3 is recognised by key= at the very start, so a valueless flag is never first in key=value style)",
@@ -15,11 +15,13 @@ ASSUMPTIONS = [
     "values contain no blanks at their edges; GTF-style values are free of ; \" , and control characters",
 ]
 
-ESC_CHARS = ["\t", "\n", "\r", "%", ";", "=", "&", ",", "\x01", "\x7f"]
+ESC_CHARS = ["\t", "\n", "\r", "%", ";", "=", "&", ",", "\x00", "\x01", "\x1f", "\x7f"]
+# GTF text has no escaping: these characters are plain data there (and so is a percent sequence)
+RAW_GTF = ["=", "&", "%", "+", "%3B", "a=b c=d"]
 KEYS = ["ID", "Name", "k3", "note_4"]
 KINDS = ("single", "two", "three", "flag")
 VALS = {
-    0: ["a1", "b", "c2"],
+    0: ["a1", "b+c", "c2"],
     1: ["nm", "x.y", "z-1"],
     2: ["v", "w w", "u"],      # an inner blank
     3: ["1", "10", "2"],
@@ -38,12 +40,13 @@ COLS = [
     (("chr1", "src", "gene", "10", "20", ".", "+", "."), ("",)),
     (("chr1", "src", "gene", "10", ".", ".", "+", "."), ()),
     (("chr1", "src", "gene", ".", "20", ".", "+", "."), ("null", "")),
+    (("chr1", "src", "gene", "9007199254740993", "9223372036854775807", ".", "+", "."), ()),      # beyond 2**53
 ]
 
 
 def bounds(tier):
     return dict(dialects=len(G.ALL), max_attributes=3 if tier == "quick" else 4,
-                kinds=list(KINDS), escape_chars=len(ESC_CHARS), escape_positions=3,
+                kinds=list(KINDS), escape_chars=len(ESC_CHARS), raw_gtf_values=RAW_GTF, escape_positions=3,
                 column_variants=len(COLS))
 
 
@@ -52,7 +55,7 @@ def shards(tier):
     return [(i, n) for i in range(len(G.ALL)) for n in range(0, maxn + 1)]
 
 
-def build_items(ch, n, d):
+def build_items(ch, n, d, tier="thorough"):
     items = []
     for i in range(n):
         kinds = KINDS
@@ -63,16 +66,17 @@ def build_items(ch, n, d):
         items.append((KEYS[i], list(VALS[i][:nv])))
     esc = None
     slots = [i for i, (k, v) in enumerate(items) if v]
-    if slots:
+    if slots and not (tier == "quick" and n >= 3):
         slot = ch.choose("esc_slot", [None] + slots)
         if slot is not None:
-            c = ch.choose("esc_char", ESC_CHARS)
-            pos = ch.choose("esc_pos", (0, 1, 2))
             if G.escapes(d):
+                c = ch.choose("esc_char", ESC_CHARS)
+                pos = ch.choose("esc_pos", (0, 1, 2))
                 raw = [c + "ab", "a" + c + "b", "ab" + c][pos]
             else:
-                # GTF text has no escaping: the percent sequence is literal text
-                raw = [G.encode(c) + "ab", "a" + G.encode(c) + "b", "ab" + G.encode(c)][pos]
+                c = ch.choose("raw_char", RAW_GTF)
+                pos = ch.choose("esc_pos", (0, 1, 2))
+                raw = [c + "ab", "a" + c + "b", "ab" + c][pos]
             items[slot][1][0] = raw
             esc = (slot, c, pos)
     return items, esc
@@ -81,7 +85,7 @@ def build_items(ch, n, d):
 def body(ch, ctx):
     di, n = ctx.shard
     d = G.ALL[di]
-    items, esc = build_items(ch, n, d)
+    items, esc = build_items(ch, n, d, ctx.tier)
     cols, extras = ch.choose("cols", COLS if (n <= 2 or ctx.tier != "quick") else COLS[:6])
     attrs_text = G.render_attrs(d, items)
     line = G.render_line(cols, attrs_text, extras)
